@@ -385,7 +385,11 @@ func (ev *Env) ident(name string, old bool) Val {
 func (ev *Env) field(base Val, name string, old bool) Val {
 	U := ev.x.U()
 	if base.GT == nil {
-		limitf("selector .%s on value of unknown Go type (sort %s)", name, base.S)
+		if si, ok := U.byName[base.S]; ok && si.Sum == "" {
+			base.GT = si.Named
+		} else {
+			limitf("selector .%s on value of unknown Go type (sort %s)", name, base.S)
+		}
 	}
 	t := base.GT
 	isPtr := false
